@@ -37,10 +37,10 @@ func with(extra ...string) []string {
 
 var props = map[string]propSpec{
 	"C01": {Harnesses: []harnessSpec{
-		{Pkg: "registration", Fn: "VerifC01NodeLed", Validate: 8, MustReach: []string{"issued", "not-issued"}, Panics: true},
-		{Pkg: "registration", Fn: "VerifC01Token", Validate: 8, MustReach: []string{"issued", "not-issued"}, Panics: true},
-		{Pkg: "registration", Fn: "VerifC01Wrapped", Validate: 8, MustReach: []string{"issued", "not-issued"}, Panics: true},
-		{Pkg: "registration", Fn: "VerifC01Rewrapped", Validate: 8, MustReach: []string{"issued", "not-issued"}, Panics: true},
+		{Pkg: "registration", Fn: "VerifC01NodeLed", Validate: 8, MustReach: []string{"issued", "not-issued"}, Panics: true, ShardBits: 2},
+		{Pkg: "registration", Fn: "VerifC01Token", Validate: 8, MustReach: []string{"issued", "not-issued"}, Panics: true, ShardBits: 2},
+		{Pkg: "registration", Fn: "VerifC01Wrapped", Validate: 8, MustReach: []string{"issued", "not-issued"}, Panics: true, ShardBits: 2},
+		{Pkg: "registration", Fn: "VerifC01Rewrapped", Validate: 8, MustReach: []string{"issued", "not-issued"}, Panics: true, ShardBits: 2},
 		{Pkg: "registration", Fn: "VerifC06TokenRace", Validate: 4, MustReach: []string{"end"}},
 	}, Assumptions: with(), Explanation: "FetchNodeCredentials and everything under it from SSA, one harness per clause of the statement in inductive-step form: (a) arbitrary stored record vs arbitrary well-signed node-led request, (b) the server's own token with either half replaced, consumed or not, key enrolled or not, any maximum lifetime and clock, (c) registration info sealed by the server's wrapper / a foreign wrapper / garbage / a forged blob, and info re-sealed by a registered or unrelated node, each with matching or mismatching inner nonce and key; refusals leave the node records byte-identical"},
 	"C02": {Harnesses: []harnessSpec{
